@@ -103,3 +103,87 @@ def sa_ids(node, style="orm", model="T"):
         return "ids " + " ".join(str(i) for i in sorted({r[0] for r in rows}))
     except Exception as e:  # noqa
         return canon(e)
+
+# ------------------------------------------------------------------ shorthands on filter TEXT (the public entry points)
+def dj_shorthand(text, model="T", base=None):
+    env = dbenv.django_env()
+    from odata_query.django import apply_odata_query
+    M = env[model]
+    qs = base if base is not None else M.objects.all()
+    try:
+        return "ok", apply_odata_query(qs, text)
+    except Exception as e:  # noqa
+        return canon(e), None
+
+def dj_shorthand_ids(text, model="T", base=None):
+    out, qs = dj_shorthand(text, model, base)
+    if qs is None:
+        return out
+    try:
+        return "ids " + " ".join(str(i) for i in sorted(set(qs.values_list("id", flat=True))))
+    except Exception as e:  # noqa
+        return canon(e)
+
+def dj_shorthand_sql(text, model="T"):
+    out, qs = dj_shorthand(text, model)
+    if qs is None:
+        return out, None, None
+    try:
+        sql, params = qs.query.sql_with_params()
+        return "ok", sql, list(params)
+    except Exception as e:  # noqa
+        return canon(e), None, None
+
+_sessions = {}
+def sa_session():
+    env = dbenv.sa_env()
+    if "s" not in _sessions:
+        _sessions["s"] = env["Session"](env["engine"])
+    return _sessions["s"]
+
+def sa_shorthand(text, style="orm", model="T", base=None):
+    """style: orm = apply_odata_query(select(Model)), legacy = apply_odata_query(session.query(Model)), core = apply_odata_core(select(table))"""
+    env = dbenv.sa_env(); sa = env["sa"]
+    from odata_query.sqlalchemy import apply_odata_core, apply_odata_query
+    M = env[model]
+    try:
+        if style == "core":
+            q = base if base is not None else sa.select(M.__table__)
+            return "ok", apply_odata_core(q, text)
+        if style == "legacy":
+            q = base if base is not None else sa_session().query(M)
+            return "ok", apply_odata_query(q, text)
+        q = base if base is not None else sa.select(M)
+        return "ok", apply_odata_query(q, text)
+    except Exception as e:  # noqa
+        return canon(e), None
+
+def sa_shorthand_ids(text, style="orm", model="T", base=None):
+    out, q = sa_shorthand(text, style, model, base)
+    if q is None:
+        return out
+    env = dbenv.sa_env()
+    try:
+        if style == "legacy":
+            rows = [(r.id,) for r in q.all()]
+        else:
+            with env["engine"].connect() as c:
+                rows = c.execute(q).fetchall()
+            if style == "orm":
+                rows = [(r[0],) if not hasattr(r[0], "id") else (r[0].id,) for r in rows]
+        return "ids " + " ".join(str(i) for i in sorted({r[0] for r in rows}))
+    except Exception as e:  # noqa
+        return canon(e)
+
+def sa_shorthand_sql(text, style="orm", model="T"):
+    """-> (outcome, sql text as sent to the driver (post-compile parameters rendered), params)"""
+    out, q = sa_shorthand(text, style, model)
+    if q is None:
+        return out, None, None
+    env = dbenv.sa_env()
+    try:
+        stmt = q.statement if style == "legacy" else q
+        c = stmt.compile(dialect=env["engine"].dialect, compile_kwargs={"render_postcompile": True})
+        return "ok", str(c), dict(c.params)
+    except Exception as e:  # noqa
+        return canon(e), None, None
